@@ -1,7 +1,8 @@
 """C09 — EnumDiscriminants mirrors the enum: same variants, order, repr, discriminants."""
 from ..core import Result, Corpus, proof_stage, correspond, distribution
-from ..spec import hx
-from .. import reprcorpus, runner
+from ..spec import hx, unhx
+import random
+from .. import reprcorpus, runner, modea, leanside
 
 
 def generate(tier, rng):
@@ -121,9 +122,161 @@ def generate(tier, rng):
     return c
 
 
+def _strip(s):
+    return ''.join(s.split())
+
+
+D_ITEMS = [  # (source text, model item)
+    ('derive(Hash)', ('der', ['Hash'])), ('derive(PartialOrd, Ord)', ('der', ['PartialOrd', 'Ord'])), ('derive(strum::EnumIter,)', ('der', ['strum::EnumIter'])),
+    ('derive()', ('der', [])), ('derive(::core::hash::Hash, Default)', ('der', ['::core::hash::Hash', 'Default'])),
+    ('name(Kind)', ('nam', 'Kind')), ('name(r#type)', ('nam', 'r#type')), ('name(Other)', ('nam', 'Other')),
+    ('vis(pub)', ('vis', 'pub')), ('vis(pub(crate))', ('vis', 'pub(crate)')), ('vis()', ('vis', '')), ('vis(pub(super))', ('vis', 'pub(super)')),
+    ('vis(pub(in crate::a))', ('vis', 'pub(incrate::a)')),
+    ('doc = "generated"', ('doc', '"generated"')), ('doc = "second line"', ('doc', '"secondline"')),
+    ('allow(dead_code)', ('oth', 'allow(dead_code)')), ('strum(serialize_all = "lowercase")', ('oth', 'strum(serialize_all="lowercase")')),
+    ('strum(prefix = "p", ascii_case_insensitive)', ('oth', 'strum(prefix="p",ascii_case_insensitive)')),
+    ('cfg_attr(test, derive(Default))', ('oth', 'cfg_attr(test,derive(Default))')), ('deny(missing_docs)', ('oth', 'deny(missing_docs)')),
+    ('non_exhaustive()', ('oth', 'non_exhaustive()')), ('some::tool(a, b = 1)', ('oth', 'some::tool(a,b=1)')),
+]
+V_ATTRS = [  # (source attribute, (path, text, inner or None))
+    ('#[doc = "v"]', ('doc', 'doc="v"', None)), ('#[cfg(all())]', ('cfg', 'cfg(all())', 'all()')), ('#[allow(dead_code)]', ('allow', 'allow(dead_code)', 'dead_code')),
+    ('#[deny(unused)]', ('deny', 'deny(unused)', 'unused')), ('#[strum(serialize = "s")]', ('strum', 'strum(serialize="s")', 'serialize="s"')),
+    ('#[strum_discriminants(strum(serialize = "d"))]', ('strum_discriminants', 'strum_discriminants(strum(serialize="d"))', 'strum(serialize="d")')),
+    ('#[strum_discriminants(doc = "x")]', ('strum_discriminants', 'strum_discriminants(doc="x")', 'doc="x"')),
+    ('#[strum_discriminants(cfg_attr(test, allow(unused), deny(warnings)))]', ('strum_discriminants', 'strum_discriminants(cfg_attr(test,allow(unused),deny(warnings)))', 'cfg_attr(test,allow(unused),deny(warnings))')),
+    ('#[serde(rename = "x")]', ('serde', 'serde(rename="x")', 'rename="x"')), ('#[warn(unused)]', ('warn', 'warn(unused)', 'unused')),
+    ('#[must_use]', ('must_use', 'must_use', None)), ('#[my::doc(x)]', ('', 'my::doc(x)', 'x')),
+]
+V_BAD = [('#[strum_discriminants]', ('strum_discriminants', 'strum_discriminants', None)), ('#[strum_discriminants()]', ('strum_discriminants', 'strum_discriminants()', '')),
+         ('#[strum_discriminants = "x"]', ('strum_discriminants', 'strum_discriminants="x"', None))]
+
+
+def _split_top(s):
+    """split a token text at its top-level commas"""
+    out, depth, cur = [], 0, ''
+    for ch in s:
+        if ch in '([{':
+            depth += 1
+        elif ch in ')]}':
+            depth -= 1
+        if ch == ',' and depth == 0:
+            out.append(cur); cur = ''
+        else:
+            cur += ch
+    out.append(cur)
+    return [x for x in out if x]
+
+
+def canon_header(line):
+    """what rustc makes of the header, not how it is spelled: several `derive(..)` attributes (or one with a trailing
+    comma) are one derive list at the place of the first; several `repr(..)` attributes are one hint list"""
+    if not line.startswith('ok '):
+        return line
+    toks = line.split(' ')
+    for ix, t in enumerate(toks):
+        if t.startswith('attrs=') and t != 'attrs=-':
+            attrs = [unhx(x).decode() for x in t[6:].split(';')]
+            merged = []
+            slot = {}
+            for a in attrs:
+                for kw in ('derive', 'repr'):
+                    if a.startswith(kw + '(') and a.endswith(')'):
+                        items = _split_top(a[len(kw) + 1:-1])
+                        if kw in slot:
+                            merged[slot[kw]][1].extend(items)
+                        else:
+                            slot[kw] = len(merged)
+                            merged.append([kw, items])
+                        break
+                else:
+                    merged.append([None, a])
+            toks[ix] = 'attrs=' + ';'.join(hx(a if kw is None else '%s(%s)' % (kw, ','.join(a))) for kw, a in merged)
+    return ' '.join(toks)
+
+
+def header_stage(res, tier, rng):
+    """mode A: the header of the generated enum (outer attributes in order, visibility, name, variant attributes) as the
+    macro emits it, against `collectDisc` / `discHeader` / `variantAttrsOut` (StrumModel/DiscHeader.lean) on the
+    `#[strum_discriminants(..)]` lists AS WRITTEN"""
+    ok, err, wall, binp = modea.build()
+    if not ok:
+        raise RuntimeError('mode A build failed:\n' + err)
+    ncase = 400 if tier == 'quick' else 6000
+    lines, srcs, classes = [], [], []
+    for k in range(ncase):
+        n_items = rng.choice([0, 1, 2, 3, 4, 5, 6, 8])
+        items = []
+        for _ in range(n_items):
+            cand = rng.choice(D_ITEMS)
+            # name / vis repeat only now and then (then the derive must fail)
+            if cand[1][0] in ('nam', 'vis') and any(i[1][0] == cand[1][0] for i in items) and rng.random() < 0.8:
+                continue
+            items.append(cand)
+        groups = []
+        i = 0
+        while i < len(items):
+            g = rng.choice([1, 1, 2, 3])
+            groups.append(items[i:i + g]); i += g
+        if rng.random() < 0.1:
+            groups.insert(rng.randrange(len(groups) + 1), [])
+        evis = rng.choice(['', 'pub', 'pub(crate)'])
+        reprs = rng.choice([[], [], ['u8'], ['C', 'u8'], ['u8', 'align(4)'], ['C, i16']])
+        nvar = rng.choice([1, 2, 3, 4])
+        variants = []
+        for j in range(nvar):
+            va = [rng.choice(V_ATTRS) for _ in range(rng.choice([0, 0, 1, 2, 3]))]
+            if rng.random() < 0.04:
+                va.insert(rng.randrange(len(va) + 1), rng.choice(V_BAD))
+            variants.append(va)
+        src = []
+        rl = list(reprs)
+        for g in groups:
+            src.append('#[strum_discriminants(%s)]' % ', '.join(t for t, _ in g))
+            if rl and rng.random() < 0.5:
+                src.append('#[repr(%s)]' % rl.pop(0))
+        for r in rl:
+            src.append('#[repr(%s)]' % r)
+        body = []
+        for j, va in enumerate(variants):
+            body.append(' '.join(t for t, _ in va) + ' V%d%s' % (j, ['', '(u8)', ' { x: u8 }', '()'][(j + k) % 4]))
+        src.append('%s enum En%d { %s }' % (evis, k, ', '.join(body)))
+        srcs.append('\n'.join(src))
+
+        def enc_item(m):
+            kind, val = m
+            if kind == 'der':
+                return 'der~' + (','.join(hx(p) for p in val) or '-')
+            return '%s~%s' % (kind, hx(val))
+        a = '|'.join(';'.join(enc_item(m) for _, m in g) for g in groups if g) or '-'
+        va_s = '/'.join(';'.join('%s~%s~%s' % (hx(p), hx(t), '-' if inner is None else hx(inner)) for _, (p, t, inner) in va) or '-' for va in variants)
+        lines.append('discheader name=%s vis=%s reprs=%s attrs=%s vattrs=%s' % (hx('En%d' % k), hx(evis), ','.join(hx(_strip(r)) for r in reprs) or '-', a, va_s))
+        ndup = max(sum(1 for _, m in items if m[0] == 'nam'), sum(1 for _, m in items if m[0] == 'vis'))
+        classes.append('items=%d groups=%d %s%s' % (min(len(items), 4), min(len(groups), 3), 'dup ' if ndup > 1 else '', 'strum-before-derive' if any(
+            m[0] == 'oth' and m[1].startswith('strum(') and any(m2[0] == 'der' for _, m2 in items[ix + 1:]) for ix, (_, m) in enumerate(items)) else ''))
+    mout = leanside.run_driver(lines)
+    iout = modea.run(binp, ['discheader %s' % hx(s) for s in srcs])
+    assert len(mout) == len(iout) == len(lines)
+    nbad = 0
+    dist = {}
+    pending = []
+    for l, s, m, i, cl in zip(lines, srcs, mout, iout, classes):
+        key = cl + (' -> err' if m == 'err' else ' -> ok')
+        dist[key] = dist.get(key, 0) + 1
+        if canon_header(m) != canon_header(i):
+            nbad += 1
+            if nbad <= 3:
+                pending.append({'kind': 'disagreement', 'label': 'modeA-discheader', 'op': l, 'source': s, 'model': m, 'impl': i,
+                                'correspondence': 'mode A discheader: enum_discriminants_inner vs collectDisc / discHeader / variantAttrsOut (StrumProofs/DiscHeader.lean: collectDisc_ok_iff, header_order, variantAttrs_spec)',
+                                'what': 'the generated discriminants enum (outer attributes in order / visibility / name / variant attributes / IntoDiscriminant) differs from collectDisc + discHeader on the attributes as written'})
+    res.cov['modeA_discheader'] = {'cases': ncase, 'disagreements': nbad, 'model_err': sum(1 for m in mout if m == 'err'), 'build_s': round(wall, 1),
+                                   'classes': len(dist), 'distribution_sample': dict(sorted(dist.items())[:12])}
+    return pending
+
+
 def run(tier, seed, rng):
     res = Result('C09', tier, seed)
     proof_stage(res, 'C09')
+    header_pending = header_stage(res, tier, random.Random(seed ^ 0x9d15c))
     c = generate(tier, rng)
     out = correspond(res, c, runner.Workspace('c09'), label='modeB')
     bad = 0
@@ -141,6 +294,13 @@ def run(tier, seed, rng):
                 res.violation({'kind': 'oracle', 'op': o.line, 'impl': got, 'enum': c.by_id[o.eid].to_json(),
                                'what': 'discriminant enum value differs from the source variant (name / integer value / pass-through attribute / size)'})
     res.cov['impl_vs_oracle_failures'] = bad
+    # a header that differs from the model's is a broken correspondence; it is a failing INPUT of C09 only when compiled
+    # programs behave differently too (mode B above) - otherwise it is reported as such, with no failing input
+    behavioural = len(res.violations) > 0
+    for pl in header_pending:
+        if not behavioural:
+            pl['search'] = 'mode B (%d compiled enums, every variant constructed, %d operations) found no program that behaves differently' % (len(c.especs), len(c.ops))
+        res.violation(pl, no_failing_input=not behavioural)
     table, distinct = distribution(c, out['model'])
     res.cov['input_distribution'] = table
     res.cov['distinct_nontrivial'] = len(distinct)
